@@ -265,7 +265,7 @@ def native_contract(run: Run, prog: Program, model: Model, tier: str, why: str,
     run.floor("NATIVE-CONTRACT", 10)
 
 def _memo(run: Run, prog: Program, model: Model, fn: Any, rule: str = "MEMO", roots: Optional[List[Any]] = None,
-          prefixes: Tuple[str, ...] = ("d42.utils",)) -> None:
+          prefixes: Tuple[str, ...] = ("d42.utils",), typed_ok: bool = True) -> None:
     """MEMO: the conversion depends on the *kind* of its argument (isinstance ladder; True/1/1.0 are equal and hash
     alike), so no function on the from_native path may be memoised by equality: lru_cache / cache without
     typed=True, or a dict keyed by the value."""
@@ -285,7 +285,16 @@ def _memo(run: Run, prog: Program, model: Model, fn: Any, rule: str = "MEMO", ro
             name = dotted(prog, f.module, d.func if isinstance(d, _ast.Call) else d, function_local_imports(f.node)) or _ast.unparse(d)
             if name.split(".")[-1] in ("lru_cache", "cache"):
                 typed = isinstance(d, _ast.Call) and any(k.arg == "typed" and isinstance(k.value, _ast.Constant) and k.value.value is True for k in d.keywords)
-                if not typed:
+                if typed and not typed_ok:
+                    # purity (C07): typed=True separates kinds, not equal-but-distinguishable values of ONE kind - 0.0 and -0.0,
+                    # aware datetimes of one instant in different zones: the stored payload (props.value, repr, what is
+                    # generated) is then that of whichever was converted first
+                    bad += 1
+                    run.violated(rule, f"{f.qualname}: @{name.split('.')[-1]}(typed=True)", f.loc,
+                                 "the conversion is memoised by equality/hash: equal values of one kind that are still distinguishable "
+                                 "(0.0 / -0.0, one instant in two time zones) share a cache slot, so the result depends on what was converted before",
+                                 witness="from_native(0.0); from_native(-0.0) returns schema.float(0.0): repr and props.value differ from a fresh interpreter's")
+                elif not typed:
                     bad += 1
                     run.violated(rule, f"{f.qualname}: @{name.split('.')[-1]}", f.loc,
                                  "a kind-sensitive conversion is memoised by equality/hash: True, 1 and 1.0 share one cache slot",
@@ -328,8 +337,8 @@ def _refuses_plain(run: Run, prog: Program, fn: Any, results: Dict[str, List[Pat
         for p in paths:
             if p.outcome == "raise" and isinstance(p.value, ExcV) and p.value.cls is ValueError and not p.implicit:
                 conds = [("" if b else "not ") + k for k, _, b in p.facts]
-                if any(any(m in c for m in ok_markers) for c in conds):
-                    continue
+                if any(any(m in c for m in ok_markers) or ("optional" in c and "ellipsis" in c and "isinstance(" in c) for c in conds):
+                    continue        # (the two marker kinds may be tested by one isinstance or by two, in any Boolean arrangement)
                 inst = [(t, b) for _, t, b in p.facts if isinstance(t, Term) and t.op == "isinstance"
                         and not any(m in str(t.args[1]) for m in ("optional", "ellipsis"))]
                 # the last kind test that SUCCEEDED on this path tells what the refused (member) value is
@@ -343,7 +352,7 @@ def _refuses_plain(run: Run, prog: Program, fn: Any, results: Dict[str, List[Pat
                         continue    # the later negative tests concern another value
                 if pos and any(alt not in plain_kinds for alt in str(pos[-1].args[1]).split("|")) and kind not in ("list", "dict"):
                     continue
-                odd.append(", ".join(c for c in conds if not c.startswith(("isinstance(value", "not isinstance(value")))[:160] or "unconditionally")
+                odd.append(", ".join(c for c in conds if not c.startswith(("isinstance(value", "not isinstance(value")))[:300] or "unconditionally")
         c = f"from_native(<{kind}>): refusal"
         if odd:
             run.violated("REFUSES-PLAIN", c, fn.loc, f"a plain {kind} is refused with ValueError when {odd[0]}",
